@@ -194,15 +194,15 @@ def plain_calls(args):
                     vert = np.array([[[0, 0, 0], [1, 0, 0], [0, 1, 0], [0, 0, 1.0]]] * 5) + 0.1
                     pol = np.array([vec() for _ in range(5)])
                     arrays = [obs, vert, pol]
-                    what = "core.magnet_tetrahedron_field"
-                    call = lambda: magpy.core.magnet_tetrahedron_field(field="B", observers=obs, vertices=vert, polarization=pol)
+                    what = "core.triangle_Bfield"
+                    call = lambda: magpy.core.triangle_Bfield(observers=obs, vertices=vert[:, :3, :], polarizations=pol)
                 elif kind == 2:
                     obs = np.array([[r.uniform(-3, 3) for _ in range(3)] for _ in range(5)])
                     dim = np.array([vec() for _ in range(5)])
                     pol = np.array([vec() for _ in range(5)])
                     arrays = [obs, dim, pol]
-                    what = "core.magnet_cuboid_field"
-                    call = lambda: magpy.core.magnet_cuboid_field(field="H", observers=obs, dimensions=dim, polarizations=pol)
+                    what = "core.magnet_cuboid_Bfield"
+                    call = lambda: magpy.core.magnet_cuboid_Bfield(observers=obs, dimensions=dim, polarizations=pol)
                 elif kind == 3:     # object interface: observers array, object attribute arrays
                     obs = np.array([[[r.uniform(-3, 3) for _ in range(3)] for _ in range(2)] for _ in range(2)])
                     src = magpy.magnet.Cylinder(dimension=(1, 2), polarization=(0.1, 0.2, 0.3), position=np.array([[0, 0, 0], [1, 0, 0.0]]))
@@ -256,6 +256,8 @@ def plain_calls(args):
                 except Exception as ex:  # pylint: disable=broad-except
                     exc2 = type(ex).__name__
                 again = (exc == exc2) and (out1 is None or (out2 is not None and np.array_equal(out1, out2, equal_nan=True)))
+                if kind != 6 and exc:
+                    raise RuntimeError(f"harness call {what} failed: {exc}")
                 f.write(json.dumps({"tid": tid0 + n, "kind": "plain", "what": what, "exc": exc, "unchanged": pre == post, "equal_len": True,
                                     "again_same": bool(again), "plan": [], "lens0": {}, "events": [], "inject": ""}, separators=(",", ":")) + "\n")
                 n += 1
